@@ -100,3 +100,56 @@ func ZZ_C03_StrictGate() {
 		}
 	}
 }
+
+
+// The gate and the I/O it admits are one critical section: an I/O that arrives while a
+// membership-changing operation is in progress (Snapshot / Resize hold the controller
+// lock across calls to the replicas, which are scheduling points; a replica failing
+// there is marked ERR) is decided on the status after that change. No write, flush or
+// unmap reaches a replica while fewer than a quorum are RW.
+func ZZ_C03_GateRace() {
+	rf := zzParam("RF", 3)
+	e := zzSymbolicEnv(rf)
+	zzAssume(e.n > 0)
+	c := e.c
+	zzmodel.RWCount = func() int { return e.countMode(types.RW) }
+	kind := zzConcretize(zzChoice("io", 3))
+	done := make(chan bool, 1)
+	gate := make(chan struct{})
+	opened := false
+	go func() {
+		<-gate // the I/O arrives while the operation below is inside a call to a replica
+		var err error
+		buf := make([]byte, 8)
+		switch kind {
+		case 0:
+			_, err = c.WriteAt(buf, 0)
+		case 1:
+			_, err = c.Sync()
+		default:
+			_, err = c.Unmap(0, 4096)
+		}
+		done <- err == nil
+	}()
+	zzmodel.OnCall = func() {
+		if !opened && zzWriteLocked(&c.RWMutex) {
+			opened = true
+			close(gate)
+		}
+		zzYield()
+	}
+	if zzNondetBool("resize") {
+		c.Resize("vol", "2M")
+	} else {
+		c.Snapshot("s1")
+	}
+	zzmodel.OnCall = nil
+	if !opened {
+		close(gate)
+	}
+	zzSettle()
+	zzAssert(len(done) == 1, "C03.race.io-did-not-finish")
+	zzAssert(!zzmodel.DataOpBelowQuorum, "C03.race.io-reached-a-replica-below-quorum")
+	zzReach("C03.race.done")
+	e.zzCheckInvC("C03.race", true, true)
+}
